@@ -647,18 +647,28 @@ def c10_binary(V, tier):
     disk = "import pytest\n\n\n@pytest.fixture\ndef on_disk():\n    return 1\n\n\ndef test_d(on_disk):\n    pass\n"
     buf = "import pytest\n\n\n@pytest.fixture\ndef in_buffer():\n    return 1\n\n\ndef test_b(in_buffer):\n    pass\n"
     buf2 = "import pytest\n\n\n@pytest.fixture\ndef second():\n    return 2\n"
-    jobs = [(i, early, same) for i in range(12 if tier == "quick" else 100) for early in (True, False) for same in (True, False)]
+    # link: the document is a SYMLINK inside the workspace to a file outside it (the scan meets the link while walking,
+    # the editor names it by URI): both must address one and the same index entry
+    jobs = [(i, early, same, link) for i in range(12 if tier == "quick" else 100) for early in (True, False) for same in (True, False)
+            for link in ((False, True) if i % 3 == 0 else (False,))]
 
     def session(job):
-        i, early, same = job
-        root = os.path.join(base, "s%d_%d_%d" % (i, early, same))
+        i, early, same, link = job
+        root = os.path.join(base, "s%d_%d_%d_%d" % (i, early, same, link), "ws")
         os.makedirs(os.path.join(root, "pkg"), exist_ok=True)
         for k in range(150):
             with open(os.path.join(root, "pkg", "test_fill_%d.py" % k), "w") as fh:
                 fh.write("import pytest\n\n\n@pytest.fixture\ndef fill_%d():\n    return 1\n\n\ndef test_f(fill_%d):\n    pass\n" % (k, k))
         f = os.path.join(root, "test_f.py")
-        with open(f, "w") as fh:
-            fh.write(disk)
+        if link:
+            shared = os.path.join(os.path.dirname(root), "shared")
+            os.makedirs(shared, exist_ok=True)
+            with open(os.path.join(shared, "test_f.py"), "w") as fh:
+                fh.write(disk)
+            os.symlink(os.path.join("..", "shared", "test_f.py"), f)
+        else:
+            with open(f, "w") as fh:
+                fh.write(disk)
         text = disk if same else buf
         srv = lsp.Server(timeout=40)
         try:
@@ -678,15 +688,15 @@ def c10_binary(V, tier):
             return {"error": str(e)}
         finally:
             srv.close()
-            shutil.rmtree(root, ignore_errors=True)
+            shutil.rmtree(os.path.dirname(root), ignore_errors=True)
 
     for job, r in zip(jobs, lsp.run_parallel(jobs, session, workers=6)):
-        i, early, same = job
+        i, early, same, link = job
         V.count()
-        V.nontriv(("bin", early, same, i))
+        V.nontriv(("bin", early, same, link, i))
         if r is None or "__exception__" in r:
             raise C.ToolError("LSP session failed: %r" % (r,))
-        ex = {"didOpen_before_scan_completes": early, "buffer_equals_disk": same, "result": r}
+        ex = {"didOpen_before_scan_completes": early, "buffer_equals_disk": same, "document_is_symlink": link, "result": r}
         if "error" in r:
             V.violation(ex, "server died while a document was opened during the workspace scan")
             continue
